@@ -44,6 +44,9 @@ Types ==
                                                    t \in {K("i8"), K("iface"), [k |-> "ptr", e |-> K("mtp")], [k |-> "map", key |-> "txt", e |-> K("int")]}}}
     \* the sorted-key iteration at scale: insertion sort up to 11 keys, radix quicksort beyond, heapsort when the depth budget is used up
     \* by shared prefixes
+    [] Fam = "rec" -> {[k |-> "rec", d |-> 2], [k |-> "ptr", e |-> [k |-> "rec", d |-> 2]], [k |-> "slice", e |-> [k |-> "rec", d |-> 1]],
+                      [k |-> "map", key |-> "str", e |-> [k |-> "ptr", e |-> [k |-> "rec", d |-> 1]]], St(<<Fld("omit", "A", "A", [k |-> "rec", d |-> 1])>>),
+                      K("iface")}
     [] Fam = "bigmap" -> {[k |-> "map", key |-> kk, e |-> K("int")] : kk \in {"str", "i64", "txt"}} \cup {St(<<Fld("none", "A", "A", [k |-> "map", key |-> "str", e |-> K("int")])>>)}
     [] Fam = "emb" -> {St(<<Fld("emb", "E", "E", e), g>>) : e \in {EmbA, EmbM, [k |-> "ptr", e |-> EmbA], [k |-> "ptr", e |-> EmbM]},
                                                        g \in {Fld("none", "A", "A", K("str")), Fld("none", "C", "C", K("int")), Fld("ren", "B", "b", K("mtp"))}}
@@ -58,6 +61,12 @@ BigMaps == {[g |-> "bm", n |-> n, p |-> p] : n \in {2, 11, 12, 13, 16, 17, 31, 3
 RECURSIVE Vals(_, _)
 Vals(t, depth) ==
   CASE Fam = "bigmap" /\ t.k = "map" -> BigMaps
+    [] t.k = "rec" -> IF t.d = 0 THEN {[g |-> "st", f |-> <<Num("int", c), Nil, Nil>>] : c \in {"z", "p7"}}
+                      ELSE LET sub == Vals([k |-> "rec", d |-> t.d - 1], depth + 1)
+                           IN {[g |-> "st", f |-> <<Num("int", c), nx, kd>>] : c \in {"z", "p7"}, nx \in {Nil} \cup {[g |-> "p", e |-> v] : v \in sub},
+                                                                           kd \in {Nil, [g |-> "a", e |-> <<>>]} \cup {[g |-> "a", e |-> <<v>>] : v \in sub}}
+    [] Fam = "rec" /\ t.k = "iface" -> {[g |-> "i", t |-> d, v |-> v] : d \in {[k |-> "rec", d |-> 1], [k |-> "ptr", e |-> [k |-> "rec", d |-> 1]]}, v \in {}} \cup
+                                      UNION {{[g |-> "i", t |-> d, v |-> v] : v \in Vals(d, 1)} : d \in {[k |-> "rec", d |-> 1], [k |-> "ptr", e |-> [k |-> "rec", d |-> 1]]}}
     [] t.k = "bool" -> {[g |-> "b", b |-> TRUE], [g |-> "b", b |-> FALSE]}
     [] t.k \in IntKinds -> {Num(t.k, c) : c \in {"z", "p7", "n3"} \cup (IF Bits(t.k) >= 16 /\ depth = 0 THEN {"n200", "p300"} ELSE {}) \cup (IF Bits(t.k) = 64 /\ depth = 0 THEN {"n2_63", "p5e9"} ELSE {})}
     \* values with the top bit of the width set (sign vs zero extension): 200 (u8), 40000 (u16), 3000000000 (u32), 2^63 (u64)
@@ -88,6 +97,7 @@ Vals(t, depth) ==
 RECURSIVE Plain(_)
 \* types whose values JSON carries faithfully into the same type (no interface, marshaler-without-unmarshaler)
 Plain(t) == CASE t.k \in MarshalerKinds \cup {"iface"} -> FALSE
+              [] t.k = "rec" -> TRUE
               [] t.k \in {"ptr", "slice", "arr", "map"} -> Plain(t.e)
               [] t.k = "st" -> \A i \in 1..Len(t.f) : Plain(t.f[i].t)
               [] OTHER -> TRUE
@@ -95,7 +105,8 @@ RECURSIVE Same(_, _, _)
 \* equality up to what JSON cannot carry: nil vs empty containers, pointers to nil, the sign of an omitted zero, invalid UTF-8, the
 \* spelling of json.Number's empty value
 Same(t, a, b) ==
-  CASE t.k = "ptr" -> IF a = Nil \/ b = Nil THEN (a = Nil \/ Same(t.e, a.e, Zero(t.e))) /\ (b = Nil \/ Same(t.e, Zero(t.e), b.e)) ELSE Same(t.e, a.e, b.e)
+  CASE t.k = "rec" -> Same(Unfold(t), a, b)
+    [] t.k = "ptr" -> IF a = Nil \/ b = Nil THEN (a = Nil \/ Same(t.e, a.e, Zero(t.e))) /\ (b = Nil \/ Same(t.e, Zero(t.e), b.e)) ELSE Same(t.e, a.e, b.e)
     [] t.k \in FloatKinds -> a = b \/ {a.c, b.c} \subseteq {"z", "nz"} \/ FloatBad(b.c)    \* NaN / Inf encoded as null on request
     [] t.k = "str" -> a = b \/ {a.c, b.c} \subseteq {"sbad", "sbadfix"}
     [] t.k = "num" -> a = b \/ {a.c, b.c} \subseteq {"se", "z"} \/ {a.c, b.c} \subseteq {"s12", "p12"}
